@@ -520,7 +520,7 @@ pub(crate) fn step_alloc<A: Allocator, T, const N: usize, const M: usize, const 
         assert!(g.o == up(pre.allocated, req_align) || kind == Kind::Bytes && g.o == pre.allocated, "C16: allocation starts at the first suitably aligned offset");
         assert!(list_unchanged(&pre, &post), "C10: fast path leaves the free list alone");
         assert!(post.discarded == pre.discarded, "C20: allocation from fresh space does not change discarded()");
-        kani::cover!(pre.k > 0, "fast path with a non-empty list");
+        kani::cover!(pre.k > 0 || matches!(cfg.fl, Freelist::None), "fast path with a non-empty list");
       } else {
         // served from the list
         assert!(post.allocated == pre.allocated, "C10: cursor unchanged when served from the free list");
@@ -587,7 +587,7 @@ pub(crate) fn step_alloc<A: Allocator, T, const N: usize, const M: usize, const 
       }
       _ => {}
     }
-    kani::cover!(pre.k > 0, "error with a non-empty list");
+    kani::cover!(pre.k > 0 || matches!(cfg.fl, Freelist::None), "error with a non-empty list");
   }
   core::mem::forget(arena);
 }
@@ -631,7 +631,7 @@ pub(crate) fn step_dealloc<A: Allocator, const N: usize, const M: usize, const C
     assert!(post.allocated == o, "C10: releasing the topmost allocation hands the space back to the cursor");
     assert!(list_unchanged(&pre, &post), "C10: releasing on top does not touch the list");
     assert!(post.discarded == pre.discarded, "C20: releasing on top does not change discarded()");
-    kani::cover!(pre.k > 0, "top release with list");
+    kani::cover!(pre.k > 0 || matches!(cfg.fl, Freelist::None), "top release with list");
   } else {
     assert!(post.allocated == pre.allocated, "C10: cursor unchanged by a non-top release");
     let a = up(o, 8);
@@ -756,4 +756,336 @@ fn inv_dealloc_unsync_none() {
 #[kani::unwind(4)]
 fn inv_dealloc_sync_none() {
   step_dealloc::<sync::Arena, 1, 2, 128>(cfg!(None, 1));
+}
+
+// ============================ C17: rewind ====================================================
+/// Reference semantics of rewind, in i128 so that nothing can overflow.
+fn rewind_ref(pos: ArenaPosition, allocated: u32, dofs: u32, cap: u32) -> u32 {
+  let t: i128 = match pos {
+    ArenaPosition::Start(n) => n as i128,
+    ArenaPosition::End(n) => cap as i128 - n as i128,
+    ArenaPosition::Current(d) => allocated as i128 + d as i128,
+  };
+  let lo = dofs as i128;
+  let hi = cap as i128;
+  (if t < lo { lo } else if t > hi { hi } else { t }) as u32
+}
+
+fn any_pos() -> ArenaPosition {
+  let which: u8 = kani::any();
+  match which % 3 {
+    0 => ArenaPosition::Start(kani::any()),
+    1 => ArenaPosition::End(kani::any()),
+    _ => ArenaPosition::Current(kani::any()),
+  }
+}
+
+pub(crate) fn step_rewind<A: Allocator, const CAP: usize>(unify: bool, res: u32) {
+  let arena: A = Options::new()
+    .with_capacity(CAP as u32)
+    .with_unify(unify)
+    .with_reserved(res)
+    .with_freelist(Freelist::None)
+    .alloc::<A>()
+    .unwrap();
+  let dofs = arena.data_offset() as u32;
+  // put the cursor anywhere in [data_offset, cap] through the public API
+  let n0: u32 = kani::any();
+  kani::assume(n0 <= CAP as u32 - dofs);
+  match arena.alloc_bytes(n0) {
+    Ok(mut h) => {
+      unsafe { h.detach() };
+      core::mem::forget(h);
+    }
+    Err(_) => assert!(false, "C04: request that fits fresh space succeeds"),
+  }
+  let a0 = arena.allocated() as u32;
+  assert!(a0 == dofs + n0, "C16: first allocation starts at data_offset");
+  let p = arena.raw_mut_ptr();
+  let data: [u8; CAP] = kani::any();
+  if !unify {
+    // plain layout: the header is outside the byte array, so every byte may be arbitrary
+    unsafe { core::ptr::copy_nonoverlapping(data.as_ptr(), p, CAP) };
+  } else {
+    unsafe { core::ptr::copy_nonoverlapping(data.as_ptr().add(dofs as usize), p.add(dofs as usize), CAP - dofs as usize) };
+  }
+  let x: u32 = kani::any();
+  kani::assume(x < CAP as u32);
+  let l = lay(res, CAP as u32);
+  // in the unified layout the cursor word is the one place rewind may write
+  kani::assume(!unify || x < l.hdr + 8 || x >= l.hdr + 12);
+  let before = unsafe { rd8(p, x) };
+  let d0 = arena.discarded();
+  let m0 = arena.minimum_segment_size();
+
+  let pos = any_pos();
+  unsafe { arena.rewind(pos) };
+
+  let want = rewind_ref(pos, a0, dofs, CAP as u32);
+  assert!(arena.allocated() as u32 == want, "C17: rewind sets the cursor to the denoted position clamped into [data_offset, capacity]");
+  assert!(unsafe { rd8(p, x) } == before, "C17: rewind changes nothing but the cursor");
+  assert!(arena.discarded() == d0 && arena.minimum_segment_size() == m0, "C17: rewind changes nothing but the cursor");
+  assert!(arena.remaining() == CAP - want as usize, "C16: remaining == capacity - allocated");
+  kani::cover!(matches!(pos, ArenaPosition::Current(d) if d < 0 && want > dofs), "backwards inside the data area");
+  kani::cover!(matches!(pos, ArenaPosition::End(_)) && want == CAP as u32);
+  core::mem::forget(arena);
+}
+
+// @h props=C17,C16 tier=quick timeout=600 bounds=CAP=96,pos:full-u32/i64-range,cursor:any,unify
+#[kani::proof]
+#[kani::unwind(3)]
+fn c17_rewind_fullrange_sync_unify() {
+  step_rewind::<sync::Arena, 96>(true, 0);
+}
+// @h props=C17,C16 tier=quick timeout=600 bounds=CAP=96,pos:full-u32/i64-range,cursor:any,unify
+#[kani::proof]
+#[kani::unwind(3)]
+fn c17_rewind_fullrange_unsync_unify() {
+  step_rewind::<unsync::Arena, 96>(true, 0);
+}
+// @h props=C17,C16 tier=quick seedgrp=rewind_plain timeout=600 bounds=CAP=96,pos:full-range,plain-layout,reserved=5
+#[kani::proof]
+#[kani::unwind(3)]
+fn c17_rewind_fullrange_sync_plain() {
+  step_rewind::<sync::Arena, 96>(false, 5);
+}
+// @h props=C17,C16 tier=quick seedgrp=rewind_plain timeout=600 bounds=CAP=96,pos:full-range,plain-layout,reserved=5
+#[kani::proof]
+#[kani::unwind(3)]
+fn c17_rewind_fullrange_unsync_plain() {
+  step_rewind::<unsync::Arena, 96>(false, 5);
+}
+
+// ============================ C17: clear =====================================================
+pub(crate) fn step_clear<A: Allocator, const N: usize, const M: usize, const CAP: usize>(cfg: Cfg) {
+  let l = lay(cfg.res, CAP as u32);
+  let arena: A = mk::<A>(cfg.fl, cfg.retries, &l, 20);
+  let pre = Pre::<N>::any(&l, cfg.fl);
+  let data: [u8; CAP] = kani::any();
+  unsafe { poke::<A, N, CAP>(&arena, &l, &pre, &data) };
+  assert!(arena.allocated() == pre.allocated as usize, "ENC: allocated readback");
+  let p = arena.raw_ptr();
+  let r: u32 = kani::any();
+  kani::assume(r < l.hdr);
+  let r_before = unsafe { rd8(p, r) };
+  let ret = unsafe { arena.clear() };
+  assert!(ret.is_ok(), "C17: clear succeeds on a writable arena");
+  let post: Post<M> = unsafe { read_post::<A, M>(&arena, &l, CAP as u32) };
+  // a fresh arena with the same options and the minimum segment size currently in force
+  let fresh: A = mk::<A>(cfg.fl, cfg.retries, &l, pre.min_seg);
+  assert!(post.allocated == l.dofs && arena.allocated() == fresh.allocated(), "C17: clear puts the cursor at data_offset");
+  assert!(post.n == 0 && post.terminated && post.sentinel_size == MAX, "C17: clear empties the free list");
+  assert!(post.discarded == 0 && arena.discarded() == fresh.discarded(), "C17: clear resets discarded() to 0");
+  assert!(post.min_seg == pre.min_seg && arena.minimum_segment_size() == fresh.minimum_segment_size(), "C17: clear keeps the minimum segment size in force");
+  assert!(arena.data_offset() == fresh.data_offset() && arena.capacity() == fresh.capacity(), "C17: cleared arena has the fresh arena's geometry");
+  let z: u32 = kani::any();
+  kani::assume(z >= l.dofs && z < CAP as u32);
+  assert!(unsafe { rd8(p, z) } == 0, "C17: clear zeroes the data area");
+  assert!(unsafe { rd8(p, r) } == r_before, "C17: clear leaves the reserved prefix untouched");
+  // byte-for-byte equal to the fresh arena everywhere except the 4 padding bytes of the header
+  let y: u32 = kani::any();
+  kani::assume(y < CAP as u32 && !(y >= l.hdr + 20 && y < l.hdr + 24));
+  assert!(unsafe { rd8(p, y) } == unsafe { rd8(fresh.raw_ptr(), y) }, "C17: cleared arena is indistinguishable from a fresh one");
+  kani::cover!(pre.k > 0 && pre.discarded > 0);
+  core::mem::forget(arena);
+  core::mem::forget(fresh);
+}
+
+// @h props=C17 tier=quick timeout=900 bounds=CAP=128,MAXN=2
+#[kani::proof]
+#[kani::unwind(5)]
+fn c17_clear_vs_fresh_unsync_opt() {
+  step_clear::<unsync::Arena, 2, 3, 128>(cfg!(Optimistic, 1));
+}
+// @h props=C17 tier=quick timeout=900 bounds=CAP=128,MAXN=2
+#[kani::proof]
+#[kani::unwind(5)]
+fn c17_clear_vs_fresh_sync_pess() {
+  step_clear::<sync::Arena, 2, 3, 128>(cfg!(Pessimistic, 1));
+}
+
+// ============================ C15: arena-level readers =======================================
+pub(crate) fn c15_setup<A: Allocator, const CAP: usize>() -> (A, u32) {
+  let l = lay(0, CAP as u32);
+  let arena: A = mk::<A>(Freelist::None, 1, &l, 20);
+  let allocated: u32 = kani::any();
+  kani::assume(allocated >= l.dofs && allocated <= CAP as u32);
+  let data: [u8; CAP] = kani::any();
+  unsafe {
+    let p = arena.raw_mut_ptr();
+    core::ptr::copy_nonoverlapping(data.as_ptr().add(l.dofs as usize), p.add(l.dofs as usize), CAP - l.dofs as usize);
+    // header words other than the cursor are data to the readers as well
+    wr64(p, l.hdr, kani::any());
+    wr32(p, l.hdr + 12, kani::any());
+    wr32(p, l.hdr + 16, kani::any());
+    wr32(p, l.hdr + 8, allocated);
+  }
+  assert!(arena.allocated() == allocated as usize, "ENC: allocated readback");
+  (arena, allocated)
+}
+
+macro_rules! c15_fixed {
+  ($name:ident, $arena:ty, $ty:ident, $get:ident, $from:ident) => {
+    #[kani::proof]
+    #[kani::unwind(18)]
+    fn $name() {
+      const SIZE: usize = core::mem::size_of::<$ty>();
+      let (arena, allocated) = c15_setup::<$arena, 64>();
+      let offset: usize = kani::any();
+      let fits = (offset as u128) + (SIZE as u128) <= allocated as u128;
+      match arena.$get(offset) {
+        Ok(v) => {
+          assert!(fits, "C15: reader succeeds only when the whole value lies below allocated()");
+          let mut b = [0u8; SIZE];
+          unsafe { core::ptr::copy_nonoverlapping(arena.raw_ptr().add(offset), b.as_mut_ptr(), SIZE) };
+          assert!(v == <$ty>::$from(b), "C15: reader returns the value decoded from the bytes at the offset");
+        }
+        Err(e) => {
+          assert!(!fits, "C15: reader fails only when the value does not lie below allocated()");
+          assert!(matches!(e, Error::OutOfBounds { .. }), "C15: failure is OutOfBounds");
+        }
+      }
+      kani::cover!(fits && offset + SIZE == allocated as usize);
+      kani::cover!(!fits && offset < allocated as usize);
+      core::mem::forget(arena);
+    }
+  };
+}
+
+// @h props=C15 tier=quick timeout=600 bounds=CAP=64,offset:any-usize,cursor:any
+c15_fixed!(c15_get_u32_le_sync, sync::Arena, u32, get_u32_le, from_le_bytes);
+// @h props=C15 tier=quick timeout=600 bounds=CAP=64,offset:any-usize,cursor:any
+c15_fixed!(c15_get_u64_be_unsync, unsync::Arena, u64, get_u64_be, from_be_bytes);
+// @h props=C15 tier=quick timeout=600 bounds=CAP=64,offset:any-usize,cursor:any
+c15_fixed!(c15_get_i16_le_unsync, unsync::Arena, i16, get_i16_le, from_le_bytes);
+// @h props=C15 tier=quick timeout=600 bounds=CAP=64,offset:any-usize,cursor:any
+c15_fixed!(c15_get_u128_be_sync, sync::Arena, u128, get_u128_be, from_be_bytes);
+// @h props=C15 tier=thorough timeout=600 bounds=CAP=64,offset:any-usize,cursor:any
+c15_fixed!(c15_get_u16_be_sync, sync::Arena, u16, get_u16_be, from_be_bytes);
+// @h props=C15 tier=thorough timeout=600 bounds=CAP=64,offset:any-usize,cursor:any
+c15_fixed!(c15_get_u16_le_unsync, unsync::Arena, u16, get_u16_le, from_le_bytes);
+// @h props=C15 tier=thorough timeout=600 bounds=CAP=64,offset:any-usize,cursor:any
+c15_fixed!(c15_get_u32_be_unsync, unsync::Arena, u32, get_u32_be, from_be_bytes);
+// @h props=C15 tier=thorough timeout=600 bounds=CAP=64,offset:any-usize,cursor:any
+c15_fixed!(c15_get_u64_le_sync, sync::Arena, u64, get_u64_le, from_le_bytes);
+// @h props=C15 tier=thorough timeout=600 bounds=CAP=64,offset:any-usize,cursor:any
+c15_fixed!(c15_get_u128_le_unsync, unsync::Arena, u128, get_u128_le, from_le_bytes);
+// @h props=C15 tier=thorough timeout=600 bounds=CAP=64,offset:any-usize,cursor:any
+c15_fixed!(c15_get_i16_be_sync, sync::Arena, i16, get_i16_be, from_be_bytes);
+// @h props=C15 tier=thorough timeout=600 bounds=CAP=64,offset:any-usize,cursor:any
+c15_fixed!(c15_get_i32_be_unsync, unsync::Arena, i32, get_i32_be, from_be_bytes);
+// @h props=C15 tier=thorough timeout=600 bounds=CAP=64,offset:any-usize,cursor:any
+c15_fixed!(c15_get_i32_le_sync, sync::Arena, i32, get_i32_le, from_le_bytes);
+// @h props=C15 tier=thorough timeout=600 bounds=CAP=64,offset:any-usize,cursor:any
+c15_fixed!(c15_get_i64_be_sync, sync::Arena, i64, get_i64_be, from_be_bytes);
+// @h props=C15 tier=thorough timeout=600 bounds=CAP=64,offset:any-usize,cursor:any
+c15_fixed!(c15_get_i64_le_unsync, unsync::Arena, i64, get_i64_le, from_le_bytes);
+// @h props=C15 tier=thorough timeout=600 bounds=CAP=64,offset:any-usize,cursor:any
+c15_fixed!(c15_get_i128_be_unsync, unsync::Arena, i128, get_i128_be, from_be_bytes);
+// @h props=C15 tier=thorough timeout=600 bounds=CAP=64,offset:any-usize,cursor:any
+c15_fixed!(c15_get_i128_le_sync, sync::Arena, i128, get_i128_le, from_le_bytes);
+
+macro_rules! c15_byte {
+  ($name:ident, $arena:ty, $ty:ident, $get:ident) => {
+    #[kani::proof]
+    #[kani::unwind(3)]
+    fn $name() {
+      let (arena, allocated) = c15_setup::<$arena, 64>();
+      let offset: usize = kani::any();
+      let fits = offset < allocated as usize;
+      match arena.$get(offset) {
+        Ok(v) => {
+          assert!(fits, "C15: reader succeeds only below allocated()");
+          assert!(v == unsafe { arena.raw_ptr().add(offset).read() } as $ty, "C15: reader returns the byte at the offset");
+        }
+        Err(e) => {
+          assert!(!fits, "C15: reader fails only at or above allocated()");
+          assert!(matches!(e, Error::OutOfBounds { .. }), "C15: failure is OutOfBounds");
+        }
+      }
+      kani::cover!(fits && offset + 1 == allocated as usize);
+      core::mem::forget(arena);
+    }
+  };
+}
+// @h props=C15 tier=quick timeout=300 bounds=CAP=64,offset:any-usize
+c15_byte!(c15_get_u8_sync, sync::Arena, u8, get_u8);
+// @h props=C15 tier=thorough timeout=300 bounds=CAP=64,offset:any-usize
+c15_byte!(c15_get_i8_unsync, unsync::Arena, i8, get_i8);
+
+macro_rules! c15_varint {
+  ($name:ident, $arena:ty, $ty:ident, $get:ident, $maxlen:expr, $unwind:expr) => {
+    #[kani::proof]
+    #[kani::unwind($unwind)]
+    fn $name() {
+      let (arena, allocated) = c15_setup::<$arena, 64>();
+      let offset: usize = kani::any();
+      let r1 = arena.$get(offset);
+      if offset >= allocated as usize {
+        assert!(matches!(r1, Err(Error::OutOfBounds { .. })), "C15: varint reader at or above allocated() is OutOfBounds");
+      } else {
+        assert!(!matches!(r1, Err(Error::OutOfBounds { .. })), "C15: varint reader below allocated() is not OutOfBounds");
+        if let Ok((n, _)) = &r1 {
+          assert!(offset + *n <= allocated as usize, "C15: varint reader never consumes bytes at or above allocated()");
+          assert!(*n >= 1 && *n <= $maxlen, "C15: varint length within the type's maximum");
+        }
+        // independence from the bytes at and above allocated(): scribble there and read again
+        if (allocated as usize) < 64 {
+          let junk: [u8; 24] = kani::any();
+          let room = 64 - allocated as usize;
+          let k = if room < 24 { room } else { 24 };
+          unsafe { core::ptr::copy_nonoverlapping(junk.as_ptr(), arena.raw_mut_ptr().add(allocated as usize), k) };
+          let r2 = arena.$get(offset);
+          match (&r1, &r2) {
+            (Ok(a), Ok(b)) => assert!(a.0 == b.0 && a.1 == b.1, "C15: varint result does not depend on bytes at or above allocated()"),
+            (Err(_), Err(_)) => {}
+            _ => assert!(false, "C15: varint result does not depend on bytes at or above allocated()"),
+          }
+        }
+        kani::cover!(r1.is_ok() && offset + 2 <= allocated as usize);
+        kani::cover!(r1.is_err() && offset + 1 == allocated as usize);
+      }
+      core::mem::forget(r1);
+      core::mem::forget(arena);
+    }
+  };
+}
+// @h props=C15 tier=quick timeout=900 bounds=CAP=64,offset:any-usize,cursor:any
+c15_varint!(c15_varint_u32_sync, sync::Arena, u32, get_u32_varint, 5, 7);
+// @h props=C15 tier=quick timeout=900 bounds=CAP=64,offset:any-usize,cursor:any
+c15_varint!(c15_varint_i64_unsync, unsync::Arena, i64, get_i64_varint, 10, 12);
+// @h props=C15 tier=thorough timeout=900 bounds=CAP=64,offset:any-usize,cursor:any
+c15_varint!(c15_varint_u16_unsync, unsync::Arena, u16, get_u16_varint, 3, 5);
+// @h props=C15 tier=thorough timeout=900 bounds=CAP=64,offset:any-usize,cursor:any
+c15_varint!(c15_varint_i16_sync, sync::Arena, i16, get_i16_varint, 3, 5);
+// @h props=C15 tier=thorough timeout=900 bounds=CAP=64,offset:any-usize,cursor:any
+c15_varint!(c15_varint_i32_unsync, unsync::Arena, i32, get_i32_varint, 5, 7);
+// @h props=C15 tier=thorough timeout=900 bounds=CAP=64,offset:any-usize,cursor:any
+c15_varint!(c15_varint_u64_sync, sync::Arena, u64, get_u64_varint, 10, 12);
+// @h props=C15 tier=thorough timeout=1500 bounds=CAP=64,offset:any-usize,cursor:any
+c15_varint!(c15_varint_u128_unsync, unsync::Arena, u128, get_u128_varint, 19, 21);
+// @h props=C15 tier=thorough timeout=1500 bounds=CAP=64,offset:any-usize,cursor:any
+c15_varint!(c15_varint_i128_sync, sync::Arena, i128, get_i128_varint, 19, 21);
+
+pub(crate) fn c15_slices<A: Allocator>() {
+  let (arena, allocated) = c15_setup::<A, 64>();
+  assert!(arena.allocated_memory().len() == allocated as usize, "C15: allocated_memory().len() == allocated()");
+  assert!(arena.data().len() == allocated as usize - arena.data_offset(), "C15: data().len() == allocated() - data_offset()");
+  assert!(arena.memory().len() == arena.capacity() && arena.capacity() == 64, "C15: memory().len() == capacity()");
+  assert!(arena.allocated_memory().as_ptr() == arena.raw_ptr(), "C15: allocated_memory starts at the arena base");
+  assert!(arena.data().as_ptr() == unsafe { arena.raw_ptr().add(arena.data_offset()) }, "C15: data starts at data_offset");
+  kani::cover!(allocated == 64);
+  core::mem::forget(arena);
+}
+// @h props=C15 tier=quick timeout=300 bounds=CAP=64,cursor:any
+#[kani::proof]
+#[kani::unwind(3)]
+fn c15_slice_lengths_sync() {
+  c15_slices::<sync::Arena>();
+}
+// @h props=C15 tier=quick timeout=300 bounds=CAP=64,cursor:any
+#[kani::proof]
+#[kani::unwind(3)]
+fn c15_slice_lengths_unsync() {
+  c15_slices::<unsync::Arena>();
 }
